@@ -1117,8 +1117,11 @@ def _expand_stars(
                         # if it has characters that the dialect would have changed, infer that it was quoted.
                         isinstance(source, exp.Table) and dialect.case_sensitive(name)
                     )
-                    selection_expr = replaced_columns.get(name) or exp.column(
-                        name, table=table, quoted=quoted
+                    replaced = replaced_columns.get(name)
+                    selection_expr = (
+                        replaced.copy()
+                        if replaced
+                        else exp.column(name, table=table, quoted=quoted)
                     )
                     new_selections.append(
                         alias(selection_expr, alias_, copy=False)
